@@ -70,12 +70,27 @@ func Execute(p *plan.Plan, k *simrt.Kernel) *Run {
 	k.SetYieldsEnabled(false)
 	r := &Run{P: p, K: k, N: n, C: cluster.New(k, n, p.Cluster), clients: map[int]*client{}, invAt: map[[2]int]int64{}}
 	// form the initial cluster: members are created at distinct instants
-	for i := 0; i < p.Cluster.Members; i++ {
-		if err := r.C.Start(i, 60*time.Second); err != nil {
-			r.Err = fmt.Errorf("cluster formation: %w", err)
-			return r
+	if p.Cluster.MemberCountQuorum > 1 {
+		// no member becomes operable alone: start them side by side (still at distinct instants)
+		errs := make(chan error, p.Cluster.Members)
+		for i := 0; i < p.Cluster.Members; i++ {
+			go func() { errs <- r.C.Start(i, 120*time.Second) }()
+			time.Sleep(7 * time.Millisecond)
 		}
-		time.Sleep(7 * time.Millisecond)
+		for i := 0; i < p.Cluster.Members; i++ {
+			if err := <-errs; err != nil {
+				r.Err = fmt.Errorf("cluster formation: %w", err)
+				return r
+			}
+		}
+	} else {
+		for i := 0; i < p.Cluster.Members; i++ {
+			if err := r.C.Start(i, 60*time.Second); err != nil {
+				r.Err = fmt.Errorf("cluster formation: %w", err)
+				return r
+			}
+			time.Sleep(7 * time.Millisecond)
+		}
 	}
 	if p.Cluster.Members > 0 {
 		if _, err := r.C.WaitStable(120*time.Second, 50*time.Millisecond); err != nil {
